@@ -250,6 +250,11 @@ func (c *End) FailOutgoingAt(n int) { c.wr.failAt = n }
 // connection whose peer stopped reading) until this end or the peer closes.
 func (c *End) StallOutgoingAt(n int) { c.wr.stallAt = n }
 
+// StallOutgoing blocks every further write of this end (the peer stops reading now);
+// UnstallOutgoing lets them proceed again.
+func (c *End) StallOutgoing()   { c.wr.stallAt = c.wr.total }
+func (c *End) UnstallOutgoing() { c.wr.stallAt = -1 }
+
 // Inject appends bytes to this end's outgoing stream without a scheduling point
 // (used by drivers that already hold the baton at a point of their own).
 func (c *End) Inject(p []byte) {
